@@ -447,6 +447,8 @@ impl Allocator for Arena {
 
   #[inline]
   fn increase_discarded(&self, size: u32) {
+    assert!(!self.ro, "ARENA is read-only");
+
     #[cfg(feature = "tracing")]
     tracing::debug!("discard {size} bytes");
 
@@ -465,6 +467,8 @@ impl Allocator for Arena {
 
   #[inline]
   fn set_minimum_segment_size(&self, size: u32) {
+    assert!(!self.ro, "ARENA is read-only");
+
     self.header_mut().min_segment_size = size;
   }
 
